@@ -75,12 +75,13 @@ def config_case(draw):
     cls = draw(st.sampled_from(CLASSES + ['VideoIn', 'VideoOut', 'Base']))
     c = draw(cred())
     case = {'cls': cls, 'cred': c, 'fail': draw(st.sampled_from([False, False, False, True]))}
-    if cls in ('VideoIn', 'VideoOut') and draw(st.integers(0, 3)) > 0:
+    if cls in ('VideoIn', 'VideoOut', 'ImageIn') and draw(st.integers(0, 3)) > 0:
         case['where'] = 'io'
-        case['scheme'] = draw(st.sampled_from(['rtsp', 'rtmp', 'http', 'https'])) if cls == 'VideoIn' else 'rtsp'
+        case['scheme'] = draw(st.sampled_from(['rtsp', 'rtmp', 'http', 'https'])) if cls == 'VideoIn' else 'rtsp' if cls == 'VideoOut' else \
+            draw(st.sampled_from(['s3', 'gs', 'file', 'http', 'https']))     # ImageIn: bucket URIs with access keys, or an http(s) URL it will refuse
         case['form'] = draw(st.sampled_from(['str', 'commastr', 'list', 'record', 'adict_record', 'record_list2']))
         case['opts'] = draw(st.sampled_from(['', '!sync', '!no-bgr!maxfps=10', ';cam', '!loop=2;cam2'])) if cls == 'VideoIn' else \
-            draw(st.sampled_from(['', '!fps=30', ';main', '!fps=15;cam']))
+            draw(st.sampled_from(['', '!fps=30', ';main', '!fps=15;cam'])) if cls == 'VideoOut' else draw(st.sampled_from(['', '!loop', ';cam', '!recursive!maxfps=5;cam2']))
         case['run'] = draw(st.booleans())
     elif draw(st.integers(0, 5)) == 0:
         # a credentialed URI where only tcp:// / ipc:// addresses are accepted: init() refuses it with an error that quotes it
@@ -154,6 +155,21 @@ def prepare():
         def destroy(self): pass
         def send_exit_msg(self, *a): pass
 
+    # no network here: the cloud clients fail at once (what they do with a wrong key), the filter then reports the failure
+    import openfilter.filter_runtime.filters.image_in as image_in
+
+    class FakeBoto3:
+        @staticmethod
+        def client(*a, **kw):
+            raise ConnectionError('could not connect to the endpoint URL')
+
+    class FakeStorage:
+        @staticmethod
+        def Client(*a, **kw):
+            raise ConnectionError('could not reach the storage API')
+    image_in.boto3, image_in.HAS_BOTO3 = FakeBoto3, True
+    image_in.storage, image_in.HAS_GCS = FakeStorage, True
+
     _M.update(flt=flt, utils=utils, lineage=lineage, video_in=video_in, VideoWriter=VideoWriter, StubMQ=StubMQ, RealMQ=flt.MQ,
               classes={'Base': Base, 'Util': Util, 'VideoIn': VideoIn, 'VideoOut': VideoOut, 'ImageIn': ImageIn, 'ImageOut': ImageOut,
                        'MQTTOut': MQTTOut, 'REST': REST, 'Webvis': Webvis, 'Recorder': Recorder})
@@ -220,10 +236,10 @@ def build_config(case):
         if c.get('umid') == '!':
             c = {**c, 'umid': '$'}      # '!' followed by an identifier-like user half would read as an option in the text forms
             uri = uri_of(c, 'http' if embed and case['cls'] == 'VideoOut' else case['scheme'], **upath)
-        key = 'sources' if case['cls'] == 'VideoIn' else 'outputs'
-        field = 'source' if case['cls'] == 'VideoIn' else 'output'
+        key = 'sources' if case['cls'] in ('VideoIn', 'ImageIn') else 'outputs'
+        field = 'source' if case['cls'] in ('VideoIn', 'ImageIn') else 'output'
         text = uri + case['opts']
-        if embed and case['cls'] == 'VideoIn':
+        if embed and case['cls'] in ('VideoIn', 'ImageIn'):
             text = uri + '!bogusopt' + case['opts']     # "unknown option 'bogusopt' in <source record>"
         form = case['form']
         topic = 'cam' if ';' in case['opts'] else 'main'
@@ -246,7 +262,7 @@ def build_config(case):
                 utils.adict(inner=val) if n == 'adict' else (f'{val}{sep}{other}' if isinstance(val, str) else [val])
         cfg[case['key']] = val
     if embed:
-        if case['cls'] == 'VideoIn':
+        if case['cls'] in ('VideoIn', 'ImageIn'):
             for rec in cfg[key] if isinstance(cfg[key], list) else []:
                 if isinstance(rec, dict) and rec.get(field) == uri:
                     rec['options'] = {'bogusopt': 1}
@@ -322,6 +338,13 @@ def run_config(case):
                 finally:
                     f.shutdown()
                 classes.append('VideoIn ran')
+            if case['where'] == 'io' and case.get('run') and case['cls'] == 'ImageIn':
+                stage = 'run'
+                f.mq = _M['StubMQ']()
+                f.config.poll_interval = 3600      # one listing at start-up, one by the polling thread, then it waits
+                f.setup(f.config)
+                f.shutdown()
+                classes.append('ImageIn ran')
             if case['where'] == 'io' and case.get('run') and case['cls'] == 'VideoOut':
                 stage = 'run'
                 for out in f.config.outputs:
